@@ -6,20 +6,24 @@ package shmipc
 // linear scans (long histories) and by porcupine against a bounded-FIFO model (short histories).
 
 import (
+	"bufio"
 	"fmt"
 	"math/rand"
+	"os"
 	"runtime"
 	"sort"
 	"sync"
 	"sync/atomic"
 	"syscall"
 	"time"
+	"unsafe"
 
 	"github.com/anishathalye/porcupine"
 )
 
 func init() {
 	verifChecks["C04"] = checkQueue
+	verifChildRoles["qconsumer"] = qConsumerChild
 }
 
 type qCase struct {
@@ -84,17 +88,28 @@ type qResult struct {
 
 func runQueueCase(c *checkCtx, cs qCase) (res qResult) {
 	var q *queue
-	if cs.Backend == "mmap" {
-		size := countQueueMemSize(cs.Cap)
+	clk := new(int64)
+	stopP := new(uint32)
+	var xfd = -1
+	var xmem []byte
+	if cs.Backend == "mmap" || cs.Backend == "memfd-2proc" {
+		size := 64 + countQueueMemSize(cs.Cap)
 		mem, fd, err := mapShared(size)
 		if err != nil {
 			panic(err)
 		}
 		defer func() { syscall.Munmap(mem); syscall.Close(fd) }()
-		q = createQueueFromBytes(mem, cs.Cap)
+		q = createQueueFromBytes(mem[64:], cs.Cap)
+		if cs.Backend == "memfd-2proc" {
+			// logical clock and stop flag live in the shared mapping too: both processes tick the same counter
+			clk = (*int64)(unsafe.Pointer(&mem[0]))
+			stopP = (*uint32)(unsafe.Pointer(&mem[8]))
+			xfd, xmem = fd, mem
+		}
 	} else {
 		q = createQueue(cs.Cap)
 	}
+	_ = xmem
 	*q.head = cs.Start
 	*q.tail = cs.Start
 	var k *ctl
@@ -106,7 +121,6 @@ func runQueueCase(c *checkCtx, cs qCase) (res qResult) {
 			defer uninstallCtl()
 		}
 	}
-	var clock int64
 	total := cs.Producers * cs.PerProd
 	opsCh := make([][]qOp, cs.Producers+1)
 	var wg sync.WaitGroup
@@ -128,18 +142,17 @@ func runQueueCase(c *checkCtx, cs qCase) (res qResult) {
 		}
 		violMu.Unlock()
 	}
-	var stop uint32
 	for p := 0; p < cs.Producers; p++ {
 		wg.Add(1)
 		go func(p int) {
 			defer wg.Done()
 			rng := rand.New(rand.NewSource(cs.Seed + int64(p)*977))
 			var ops []qOp
-			for n := 0; n < cs.PerProd && atomic.LoadUint32(&stop) == 0; {
+			for n := 0; n < cs.PerProd && atomic.LoadUint32(stopP) == 0; {
 				e := queueElement{seqID: uint32(p + 1), offsetInShmBuf: uint32(n + 1), status: qChecksum(uint32(p+1), uint32(n+1))}
-				t0 := atomic.AddInt64(&clock, 1)
+				t0 := atomic.AddInt64(clk, 1)
 				err := q.put(e)
-				t1 := atomic.AddInt64(&clock, 1)
+				t1 := atomic.AddInt64(clk, 1)
 				op := qOp{put: true, prod: p + 1, n: uint32(n + 1), ok: err == nil, call: t0, ret: t1}
 				if err != nil && err != ErrQueueFull {
 					violate("put returned unexpected error %v", err)
@@ -166,47 +179,61 @@ func runQueueCase(c *checkCtx, cs qCase) (res qResult) {
 			opsCh[p] = ops
 		}(p)
 	}
-	wg.Add(1)
-	go func() { // the single consumer
-		defer wg.Done()
-		rng := rand.New(rand.NewSource(cs.Seed ^ 0x5555))
-		var ops []qOp
-		got := 0
-		idle := 0
-		for got < total {
-			t0 := atomic.AddInt64(&clock, 1)
-			e, err := q.pop()
-			t1 := atomic.AddInt64(&clock, 1)
-			if err == nil {
-				ops = append(ops, qOp{consumer: true, ok: true, got: e, call: t0, ret: t1})
-				got++
-				idle = 0
-			} else {
-				if len(ops) == 0 || ops[len(ops)-1].ok {
-					ops = append(ops, qOp{consumer: true, ok: false, call: t0, ret: t1})
-				}
-				idle++
-				if idle > 50_000_000 {
-					violate("consumer starved: %d of %d elements never arrived", total-got, total)
-					atomic.StoreUint32(&stop, 1)
-					break
-				}
-				runtime.Gosched()
-			}
-			if rng.Intn(16) == 0 {
-				sample()
-			}
+	var consumerChild *childProc
+	if cs.Backend == "memfd-2proc" {
+		cp, err := c.spawnChildFiles("qconsumer", []string{fmt.Sprint(64 + countQueueMemSize(cs.Cap)), fmt.Sprint(total), fmt.Sprint(cs.Seed), cs.Profile},
+			[]*os.File{os.NewFile(uintptr(dupFd(xfd)), "ring")})
+		if err != nil {
+			panic(err)
 		}
-		opsCh[cs.Producers] = ops
-	}()
+		consumerChild = cp
+	} else {
+		wg.Add(1)
+		go func() { // the single consumer
+			defer wg.Done()
+			ops, starved := qConsume(q, clk, stopP, total, cs.Seed, sample)
+			if starved > 0 {
+				violate("consumer starved: %d of %d elements never arrived", starved, total)
+			}
+			opsCh[cs.Producers] = ops
+		}()
+	}
 	done := make(chan struct{})
 	go func() { wg.Wait(); close(done) }()
 	select {
 	case <-done:
 	case <-time.After(120 * time.Second):
-		atomic.StoreUint32(&stop, 1)
+		atomic.StoreUint32(stopP, 1)
 		violate("watchdog: queue workload did not finish (producers/consumer stuck)")
 		<-done
+	}
+	if consumerChild != nil {
+		var ops []qOp
+		finished := false
+		for {
+			line, ok := consumerChild.recv(150*time.Second, nil)
+			if !ok {
+				break
+			}
+			if line == "END" {
+				finished = true
+				break
+			}
+			var o qOp
+			var okI int
+			if n, _ := fmt.Sscanf(line, "%d %d %d %d %d %d", &o.call, &o.ret, &okI, &o.got.seqID, &o.got.offsetInShmBuf, &o.got.status); n == 6 {
+				o.consumer, o.ok = true, okI == 1
+				ops = append(ops, o)
+			} else if len(line) > 7 && line[:7] == "STARVED" {
+				violate("consumer process starved: %s", line)
+			}
+		}
+		ex := consumerChild.wait(20 * time.Second)
+		if !finished {
+			violate("consumer process did not deliver its history (exit=%v code=%d signal=%s): %s", ex.Exited, ex.Code, ex.Signal, truncate(ex.Stderr, 1500))
+		}
+		consumerChild.cleanupFiles()
+		opsCh[cs.Producers] = ops
 	}
 	for _, o := range opsCh {
 		res.ops = append(res.ops, o...)
@@ -379,6 +406,73 @@ func runQueueCase(c *checkCtx, cs qCase) (res qResult) {
 	return
 }
 
+// qConsume is the single consumer's loop (in a goroutine, or in a child process for the two-process back-end).
+func qConsume(q *queue, clk *int64, stopP *uint32, total int, seed int64, sample func()) (ops []qOp, starved int) {
+	rng := rand.New(rand.NewSource(seed ^ 0x5555))
+	got := 0
+	idle := 0
+	for got < total {
+		t0 := atomic.AddInt64(clk, 1)
+		e, err := q.pop()
+		t1 := atomic.AddInt64(clk, 1)
+		if err == nil {
+			ops = append(ops, qOp{consumer: true, ok: true, got: e, call: t0, ret: t1})
+			got++
+			idle = 0
+		} else {
+			if len(ops) == 0 || ops[len(ops)-1].ok {
+				ops = append(ops, qOp{consumer: true, ok: false, call: t0, ret: t1})
+			}
+			idle++
+			if idle > 50_000_000 || atomic.LoadUint32(stopP) != 0 {
+				atomic.StoreUint32(stopP, 1)
+				return ops, total - got
+			}
+			runtime.Gosched()
+		}
+		if sample != nil && rng.Intn(16) == 0 {
+			sample()
+		}
+	}
+	return ops, 0
+}
+
+// child: the consumer of a ring that lives in a memfd shared with the producers' process
+func qConsumerChild(args []string) {
+	var size, total int
+	var seed int64
+	fmt.Sscan(args[0], &size)
+	fmt.Sscan(args[1], &total)
+	fmt.Sscan(args[2], &seed)
+	mem, err := syscall.Mmap(3, 0, size, syscall.PROT_READ|syscall.PROT_WRITE, syscall.MAP_SHARED)
+	if err != nil {
+		fmt.Fprintln(os.Stderr, "mmap:", err)
+		os.Exit(4)
+	}
+	q := mappingQueueFromBytes(mem[64:])
+	for _, p := range qProfiles {
+		if p.name == args[3] && p.build != nil {
+			k := newCtl(p.name, seed)
+			p.build(k)
+			k.install()
+		}
+	}
+	ops, starved := qConsume(q, (*int64)(unsafe.Pointer(&mem[0])), (*uint32)(unsafe.Pointer(&mem[8])), total, seed, nil)
+	w := bufio.NewWriterSize(os.Stdout, 1<<20)
+	for _, o := range ops {
+		ok := 0
+		if o.ok {
+			ok = 1
+		}
+		fmt.Fprintf(w, "%d %d %d %d %d %d\n", o.call, o.ret, ok, o.got.seqID, o.got.offsetInShmBuf, o.got.status)
+	}
+	if starved > 0 {
+		fmt.Fprintf(w, "STARVED %d of %d elements never arrived\n", starved, total)
+	}
+	fmt.Fprintln(w, "END")
+	w.Flush()
+}
+
 type qIn struct {
 	put bool
 	id  uint64
@@ -477,8 +571,13 @@ func genQueueCase(c *checkCtx, idx int, short bool, medium bool) qCase {
 	default:
 		cs.Start = int64(rng.Intn(1 << 20))
 	}
-	if rng.Intn(3) == 0 {
+	switch rng.Intn(6) {
+	case 0, 1:
 		cs.Backend = "mmap"
+	case 2:
+		if !short {
+			cs.Backend = "memfd-2proc" // producers here, the consumer in a child process: the topology the library supports
+		}
 	}
 	cs.Profile = qProfiles[rng.Intn(len(qProfiles))].name
 	if !short && !medium && cs.Profile != "natural" && cs.Profile != "all-gosched" {
@@ -523,6 +622,7 @@ func checkQueue(c *checkCtx) {
 	judge := func(cs qCase, res qResult) {
 		c.eval(1)
 		c.count("elements delivered", int64(res.elements))
+		c.count("executions."+cs.Backend, 1)
 		c.count("put answered full", int64(res.fulls))
 		c.count("ops overlapping a foreign op", int64(res.overlaps))
 		c.count("ring wrap-arounds", res.wraps)
